@@ -310,19 +310,21 @@ def preemptions(trace):
     return sum(1 for (ch, cands, me) in trace if me is not None and me in cands and ch != me)
 
 
-def explore_bounded(run_one, bound, max_runs, on_result, start_prefix=()):
+def explore_bounded(run_one, bound, max_runs, on_result, start_prefix=(), seen=None):
     """depth-first pre-emption-bounded enumeration.  run_one(prefix) -> (trace, outcome);
     on_result(prefix, trace, outcome) -> True to stop.  Returns (#runs, exhausted?)"""
     stack = [list(start_prefix)]
     runs = 0
-    seen = set()
+    seen = set() if seen is None else seen
+    root = True
     while stack:
         if runs >= max_runs:
             return runs, False
         prefix = stack.pop()
         key = tuple(prefix)
-        if key in seen:
+        if key in seen and not root:
             continue
+        root = False
         seen.add(key)
         trace, outcome = run_one(prefix)
         runs += 1
